@@ -192,6 +192,18 @@ def replay_file(P, path):
                   f"({res['clause']} instead of {doc['clause']})") + " than when the replay file "
                   "was written: the defect's output is nondeterministic (e.g. uninitialised "
                   "memory); the schedule and the violation are what the file reproduces")
+        if not same_sched and os.environ.get("VERIF_RERECORD") == "1":
+            # The run that found this violation was influenced by earlier runs of its worker
+            # process (process-wide state in the code under test), so a fresh interpreter takes
+            # another path to the same kind of violation. The file is re-recorded from THIS
+            # execution - the one a fresh interpreter performs - and must replay exactly.
+            doc.update(clause=res["clause"], detail=res["detail"], choices=res.get("choices"),
+                       event_digest=res.get("digest"), result_digest=res.get("result_digest"),
+                       rerecorded="found under process-wide state left by earlier runs of the "
+                                  "worker; re-recorded from a fresh interpreter")
+            with open(path, "w") as f:
+                json.dump(doc, f, default=str)
+            print("REPLAY-RERECORDED")
         print(f"REPLAY-REPRODUCED clause={res['clause']} same_clause={same_clause} "
               f"same_schedule={same_sched}")
         print(f"VIOLATION property={P.ID} replay={path}")
@@ -210,6 +222,15 @@ def confirm_fresh(P, path, clause):
     # the fresh interpreter must violate the property again under exactly the recorded schedule
     # (same event log); the clause may differ only for defects with nondeterministic output
     ok = p.returncode == 1 and "REPLAY-REPRODUCED" in p.stdout and "same_schedule=True" in p.stdout
+    if not ok and p.returncode == 1 and "REPLAY-REPRODUCED" in p.stdout:
+        # violated again, through another execution: see replay_file (re-record, then the
+        # re-recorded file must replay exactly in yet another fresh interpreter)
+        subprocess.run([sys.executable, main, P.ID, "--replay", path], capture_output=True,
+                       text=True, env=dict(env, VERIF_RERECORD="1"), timeout=600)
+        p = subprocess.run([sys.executable, main, P.ID, "--replay", path],
+                           capture_output=True, text=True, env=env, timeout=600)
+        ok = p.returncode == 1 and "REPLAY-REPRODUCED" in p.stdout and \
+            "same_schedule=True" in p.stdout
     return ok, p.stdout[-2000:] + p.stderr[-2000:]
 
 
